@@ -248,6 +248,10 @@ func runC07(c *Ctx) {
 			continue
 		}
 		allInstrs(fn, func(i ssa.Instruction) {
+			if callName(i) == "(*net.TCPConn).SetLinger" {
+				n++
+				c.fail("C07.R4", fnName(fn)+"/SetLinger", i.Pos(), "SO_LINGER is configured on a tunnelled leg: with a zero or positive linger time Close discards the bytes still queued for the peer (and resets the connection), so the tail of the stream written just before a close is lost")
+			}
 			if strings.HasSuffix(callName(i), "gorilla/websocket.Conn).SetReadLimit") {
 				n++
 				c.fail("C07.R4", fnName(fn)+"/SetReadLimit", i.Pos(), "a read limit is set on a WebSocket connection: the peer sends one message per Write of any size, so a Write larger than the limit breaks the byte stream (and the yamux session riding on it)")
